@@ -31,7 +31,10 @@ def main():
         seen = set()
         for mp in metas:
             try:
-                s = (json.load(open(mp)).get("summary") or "").strip().replace("\n", " ")
+                mj = json.load(open(mp))
+                if "why_equivalent" in mj:
+                    continue        # a behaviour-preserving refactoring of waves 7-10, not a breaking change
+                s = (mj.get("summary") or "").strip().replace("\n", " ")
             except Exception:
                 continue
             if s and s[:60] not in seen:
